@@ -109,6 +109,22 @@ def facts_of(p):
             "cancel_in_policy": any(jb.get("cancel_in_policy") for jb in p["jobs"])}
 
 
+def stopped_tasks(quick):
+    """Retries stopped by a refused cancel() (arriving while the policy is being consulted) while another submission
+    waits for an EARLIER retry time: the stopped one is finalised at once, not when the other one's back-off ends."""
+    swept = []
+    for s_stop, s_other in ((100, 0), (0, 100), (50, 0)):
+        for fl in ("manual", "pool"):
+            ps = {"flavour": fl, "policy": {"kind": "exc", "max_attempts": 3, "sleep": 400, "exponent": 1, "max_sleep": 400},
+                  "jobs": [{"script": ["E", "E", "V"], "S": s_other, "C": False},
+                           {"script": ["E", "V"], "S": s_stop, "C": False, "cancel_in_policy": 1}],
+                  "dur": 300, "horizon": 4000, "workers": 2}
+            for k in range(2 if quick else 12):
+                swept.append({"scen": "retry", "params": ps, "strat": ["random", 11 + k, 0.6],
+                              "gran": "line" if k % 2 else "sync", "facts": facts_of(ps)})
+    return swept
+
+
 def run(ck, cancels=False):
     quick = ck.tier == "quick"
     rng = random.Random(ck.seed + (17 if cancels else 0))
@@ -160,6 +176,7 @@ def run(ck, cancels=False):
               "jobs": [{"script": ["E"] * nfail + ["V"], "S": 0, "C": False}], "dur": 0, "horizon": 4000}
         swept.append({"scen": "retry", "params": pz, "strat": ["random", 1, 0.6], "gran": "sync", "facts": facts_of(pz),
                       "opts": {"max_steps": 40 * nfail + 2000}})
+    swept += stopped_tasks(quick)
     # back-offs of a fraction of a tick, and a long geometric back-off with an exponent close to 1 (66+ attempts)
     for pol, nfail in (({"kind": "exc", "max_attempts": 5, "sleep": 0.5, "exponent": 2, "max_sleep": 3}, 4),
                        ({"kind": "exc", "max_attempts": 6, "sleep": 0.25, "exponent": 1.5, "max_sleep": 1000}, 5),
